@@ -885,6 +885,11 @@ func (env *Zlisp) Run() (Sexp, error) {
 	runState := env.captureControlState()
 
 	for env.pc != -1 && !env.ReachedEnd() {
+		if err := env.verifStep(); err != nil {
+			env.restoreControlState(runState)
+			env.pc = functionSize(env.curfunc)
+			return SexpNull, err
+		}
 		instr := env.curfunc.fun[env.pc]
 		if env.debugExec {
 			fmt.Printf("\n ====== in '%s', about to run: '%v'\n",
